@@ -16,7 +16,7 @@ void j_sincos_acc(Ctx & c, int64_t x, int64_t, int64_t)
   long double bs = 4 * ULP + f9(fabsl(asinl(s))) + SLACK, bc = 4 * ULP + f9(fabsl(asinl(co))) + SLACK;
   c.stratum("accuracy-domain");
   // few admissible results: the bound interval holds fewer than 9 representable values everywhere (bound <= 4ulp + small near 0)
-  if(bs < 5 * ULP || bc < 5 * ULP || x % PHI2 == 0 || llabs(x) > 411700) c.nontrivial(hash3(9, x, 0));
+  if(bs < 5 * ULP || bc < 5 * ULP || x % PHI2 == 0 || sabs(x) > 411700) c.nontrivial(hash3(9, x, 0));
   for(size_t ci = 0; ci < g_cfgs.size(); ++ci)
     {
     CALLG(a, SIN, x, 0) CALLG(b, COS, x, 0)
@@ -28,13 +28,14 @@ void j_sincos_acc(Ctx & c, int64_t x, int64_t, int64_t)
   }
 void j_sincos_range(Ctx & c, int64_t x, int64_t, int64_t)
   {
-  c.stratum("range-clause"); if(llabs(x) > (1ll << 40)) c.stratum("range-large-argument");
-  if(llabs(x) > (1ll << 62)) c.nontrivial(hash3(91, x, 0));
+  if(!model_finite(x)) return;
+  c.stratum("range-clause"); if(sabs(x) > (1ll << 40)) c.stratum("range-large-argument");
+  if(sabs(x) > (1ll << 62)) c.nontrivial(hash3(91, x, 0));
   for(size_t ci = 0; ci < g_cfgs.size(); ++ci)
     {
     CALLG(a, SIN, x, 0) CALLG(b, COS, x, 0)
-    c.maxi("max_abs_sin_raw", (long double)llabs(a.v), "sin", x); c.maxi("max_abs_cos_raw", (long double)llabs(b.v), "cos", x);
-    const char * cls = llabs(x) >= RAW_MAX - 3 * PHI ? "/near-limits" : "";
+    c.maxi("max_abs_sin_raw", (long double)sabs(a.v), "sin", x); c.maxi("max_abs_cos_raw", (long double)sabs(b.v), "cos", x);
+    const char * cls = sabs(x) >= RAW_MAX - 3 * PHI ? "/near-limits" : "";
     if(a.v < -65536 || a.v > 65536) c.violation(std::string("sin/outside-[-1,1]") + cls, (int)ci, x, 0, 0, i2s(a.v), "[-65536,65536]");
     if(b.v < -65536 || b.v > 65536) c.violation(std::string("cos/outside-[-1,1]") + cls, (int)ci, x, 0, 0, i2s(b.v), "[-65536,65536]");
     }
@@ -44,7 +45,7 @@ void j_sincos_period(Ctx & c, int64_t x, int64_t k, int64_t)
   i128 y = (i128)x + (i128)k * TWO_PHI; const i128 LIM = (i128)1 << 62;
   if(x >= LIM || x <= -LIM || y >= LIM || y <= -LIM || k == 0) return;
   c.stratum("periodicity"); if((x < 0) != (y < 0)) c.stratum("period-across-zero");
-  if((x < 0) != (y < 0) || llabs(k) > 1000000) c.nontrivial(hash3(92, x, k));
+  if((x < 0) != (y < 0) || sabs(k) > 1000000) c.nontrivial(hash3(92, x, k));
   for(size_t ci = 0; ci < g_cfgs.size(); ++ci)
     {
     CALLG(a, SIN, x, 0) CALLG(a2, SIN, (int64_t)y, 0) CALLG(b, COS, x, 0) CALLG(b2, COS, (int64_t)y, 0)
@@ -98,9 +99,9 @@ void j_tan_acc(Ctx & c, int64_t x, int64_t, int64_t)
   {
   if(x < -PHI || x > PHI || is_pole(x)) return;
   long double t = tanl(raw2ld(x)), bound = 2.5L * ULP * (1 + t * t) + SLACK;
-  int64_t ax = llabs(x);
+  int64_t ax = sabs(x);
   c.stratum(ax <= 51472 ? "tan-series-branch" : (ax <= PHI2 ? "tan-reciprocal-branch" : "tan-beyond-pi/2"));
-  if(llabs(ax - PHI2) < 2000 || ax > PHI2 || llabs(ax - 51472) < 3) c.nontrivial(hash3(10, x, 0));
+  if(sabs(ax - PHI2) < 2000 || ax > PHI2 || sabs(ax - 51472) < 3) c.nontrivial(hash3(10, x, 0));
   for(size_t ci = 0; ci < g_cfgs.size(); ++ci)
     {
     CALLG(r, TAN, x, 0)
@@ -114,7 +115,7 @@ void j_tan_sym(Ctx & c, int64_t x, int64_t k, int64_t)
   const i128 LIM = (i128)1 << 62;
   if(x >= LIM || x <= -LIM) return;
   bool pole = is_pole(x);
-  c.stratum(pole ? "tan-pole" : "tan-non-pole"); if(pole || llabs(x) > (1ll << 50)) c.nontrivial(hash3(101, x, k));
+  c.stratum(pole ? "tan-pole" : "tan-non-pole"); if(pole || sabs(x) > (1ll << 50)) c.nontrivial(hash3(101, x, k));
   for(size_t ci = 0; ci < g_cfgs.size(); ++ci)
     {
     CALLG(r, TAN, x, 0) CALLG(rn, TAN, -x, 0)
@@ -170,11 +171,11 @@ const int64_t ATAN_FRONTIER = 57738456761160ll; // x*159744 leaves int64 beyond 
 const char * atan_class(int64_t ax) { return ax > ATAN_FRONTIER ? "|x|>8.81e8" : "|x|<=8.81e8"; }
 void j_atan(Ctx & c, int64_t x, int64_t, int64_t)
   {
-  int64_t ax = llabs(x);
+  int64_t ax = sabs(x);
   if(ax >= (1ll << 47)) return;
   long double t = atanl(raw2ld(x));
   c.stratum(ax < 28672 ? "atan-seg0" : ax < 45056 ? "atan-seg1" : ax < 77824 ? "atan-seg2" : ax < 159744 ? "atan-seg3" : (ax > ATAN_FRONTIER ? "atan-beyond-mul-frontier" : "atan-seg4"));
-  for(int64_t b : { (int64_t)28672, (int64_t)45056, (int64_t)77824, (int64_t)159744, ATAN_FRONTIER }) if(llabs(ax - b) <= 64) c.nontrivial(hash3(11, x, 0));
+  for(int64_t b : { (int64_t)28672, (int64_t)45056, (int64_t)77824, (int64_t)159744, ATAN_FRONTIER }) if(sabs(ax - b) <= 64) c.nontrivial(hash3(11, x, 0));
   if(ax > (1ll << 36)) c.nontrivial(hash3(11, x, 0));
   for(size_t ci = 0; ci < g_cfgs.size(); ++ci)
     {
@@ -188,18 +189,18 @@ void j_atan(Ctx & c, int64_t x, int64_t, int64_t)
   }
 void j_atan_mono(Ctx & c, int64_t x, int64_t y, int64_t)
   {
-  if(x > y || llabs(x) >= (1ll << 47) || llabs(y) >= (1ll << 47)) return;
+  if(x > y || sabs(x) >= (1ll << 47) || sabs(y) >= (1ll << 47)) return;
   c.stratum("atan-monotone-pair");
   for(size_t ci = 0; ci < g_cfgs.size(); ++ci)
     {
     CALLG(a, ATAN, x, 0) CALLG(b, ATAN, y, 0)
     if(a.v > b.v) c.maxi("atan_max_decrease_raw", (long double)(a.v - b.v), "atan_mono", x, y);
-    if(a.v > b.v + 2) c.violation(std::string("atan/") + atan_class(std::max(llabs(x), llabs(y))) + "/decreases-by-more-than-2ulp", (int)ci, x, y, 0, i2s(a.v) + " > " + i2s(b.v) + "+2", "atan(x) <= atan(y)+2");
+    if(a.v > b.v + 2) c.violation(std::string("atan/") + atan_class(std::max(sabs(x), sabs(y))) + "/decreases-by-more-than-2ulp", (int)ci, x, y, 0, i2s(a.v) + " > " + i2s(b.v) + "+2", "atan(x) <= atan(y)+2");
     }
   }
 void j_atan2(Ctx & c, int64_t y, int64_t x, int64_t)
   {
-  if(llabs(x) >= (1ll << 47) || llabs(y) >= (1ll << 47)) return;
+  if(sabs(x) >= (1ll << 47) || sabs(y) >= (1ll << 47)) return;
   for(size_t ci = 0; ci < g_cfgs.size(); ++ci)
     {
     CALLG(r, ATAN2, y, x)
@@ -209,7 +210,7 @@ void j_atan2(Ctx & c, int64_t y, int64_t x, int64_t)
     c.stratum(x > 0 ? (y > 0 ? "atan2-q1" : "atan2-q4") : (y > 0 ? "atan2-q2" : "atan2-q3"));
     // the library divides y/x first: the quotient magnitude decides which atan branch runs
     long double ratio = fabsl((long double)y / (long double)x);
-    bool beyond = ratio * 65536.0L > (long double)ATAN_FRONTIER, lossy = llabs(y) >= (1ll << 47);
+    bool beyond = ratio * 65536.0L > (long double)ATAN_FRONTIER, lossy = sabs(y) >= (1ll << 47);
     if(beyond) { c.stratum("atan2-ratio-beyond-mul-frontier"); c.nontrivial(hash3(112, y, x)); }
     if(ratio < 1e-9L || ratio > 1e4L) c.nontrivial(hash3(112, y, x));
     (void)lossy;
@@ -255,7 +256,7 @@ void c11_run(Ctx & c)
   int64_t argmax = 0, vmax = INT64_MIN;
   for(int64_t x : xs)
     {
-    if(llabs(x) >= (1ll << 47)) continue;
+    if(sabs(x) >= (1ll << 47)) continue;
     c.run_check(AT, x);
     int64_t v = c.call(ATAN.f[0], x, 0).v;
     if(vmax != INT64_MIN && v < vmax) c.run_check(MONO, argmax, x);
@@ -275,11 +276,11 @@ void c11_run(Ctx & c)
       case 0: y = c.rng.logu(47); x = c.rng.logu(47); break;
       case 1: y = c.rng.logu(47); x = c.rng.range(-3, 3); break;            // huge ratios, x = 0 axis
       case 2: y = c.rng.range(-3, 3); x = c.rng.logu(47); break;            // tiny ratios, y = 0 axis
-      case 3: { x = c.rng.logu(30); y = clamp_finite((i128)x * (ATAN_FRONTIER / 65536) + c.rng.range(-70000, 70000)); if(llabs(y) >= (1ll << 47)) y = c.rng.logu(47); break; } // ratio near the frontier
+      case 3: { x = c.rng.logu(30); y = clamp_finite((i128)x * (ATAN_FRONTIER / 65536) + c.rng.range(-70000, 70000)); if(sabs(y) >= (1ll << 47)) y = c.rng.logu(47); break; } // ratio near the frontier
       case 4: y = c.rng.logu(20); x = c.rng.logu(20); break;
       default: { x = c.rng.logu(40); y = x + c.rng.range(-2, 2); if(c.rng.next() & 1) y = -y; }
       }
-    if(llabs(x) >= (1ll << 47) || llabs(y) >= (1ll << 47)) continue;
+    if(sabs(x) >= (1ll << 47) || sabs(y) >= (1ll << 47)) continue;
     c.run_check(A2, y, x);
     }
   }
@@ -296,8 +297,8 @@ Registrar R_C11(&P_C11);
 Fn ASIN, ACOS;
 void j_asin_dom(Ctx & c, int64_t x, int64_t, int64_t)
   {
-  if(x >= -65536 && x <= 65536) return;
-  c.stratum("asin-outside-domain"); if(llabs(x) < 65536 + 16 || model_isnan(x)) c.nontrivial(hash3(12, x, 0));
+  if((x >= -65536 && x <= 65536) || x == INT64_MIN) return;
+  c.stratum("asin-outside-domain"); if(sabs(x) < 65536 + 16 || model_isnan(x)) c.nontrivial(hash3(12, x, 0));
   for(size_t ci = 0; ci < g_cfgs.size(); ++ci)
     {
     CALLG(a, ASIN, x, 0) CALLG(b, ACOS, x, 0)
@@ -308,9 +309,9 @@ void j_asin_dom(Ctx & c, int64_t x, int64_t, int64_t)
 void j_asin_acc(Ctx & c, int64_t x, int64_t, int64_t)
   {
   if(x < -65536 || x > 65536) return;
-  int64_t ax = llabs(x);
+  int64_t ax = sabs(x);
   c.stratum(ax <= 39321 ? "asin-series-branch" : "asin-sqrt-branch");
-  if(ax > 65536 - 600 || llabs(ax - 39321) <= 2 || x == 0) c.nontrivial(hash3(121, x, 0));
+  if(ax > 65536 - 600 || sabs(ax - 39321) <= 2 || x == 0) c.nontrivial(hash3(121, x, 0));
   auto cl = [](int64_t v) { return v < -65536 ? (int64_t)-65536 : (v > 65536 ? (int64_t)65536 : v); };
   long double lo = asinl(raw2ld(cl(x - 2))) - 4 * ULP - SLACK, hi = asinl(raw2ld(cl(x + 2))) + 4 * ULP + SLACK;
   long double t = asinl(raw2ld(x));
@@ -323,7 +324,7 @@ void j_asin_acc(Ctx & c, int64_t x, int64_t, int64_t)
     c.maxi(g_cfgs[ci].sqrt_algo == 1 ? "asin_err_ulp(abacus)" : "asin_err_ulp(std)", fabsl(v - t) * 65536, "asin", x);
     if(v < lo || v > hi) c.violation(std::string("asin/") + (ax <= 39321 ? "series" : "sqrt") + "-branch/" + alg + "/beyond-backward-forward-bound", (int)ci, x, 0, 0, i2s(a.v), "[" + ld2s(lo * 65536) + "," + ld2s(hi * 65536) + "]");
     if(an.v != -a.v) c.violation("asin/not-odd", (int)ci, x, 0, 0, i2s(an.v), i2s(-a.v));
-    if(model_isnan(b.v) || llabs(b.v - (PHI2 - a.v)) > 1) c.violation("acos/differs-from-pi/2-asin", (int)ci, x, 0, 0, i2s(b.v), i2s(PHI2 - a.v) + "+-1");
+    if(model_isnan(b.v) || sabs(b.v - (PHI2 - a.v)) > 1) c.violation("acos/differs-from-pi/2-asin", (int)ci, x, 0, 0, i2s(b.v), i2s(PHI2 - a.v) + "+-1");
     }
   }
 void j_asin_mono(Ctx & c, int64_t x, int64_t y, int64_t)
